@@ -101,9 +101,11 @@ Handle(e) ==
            \* the overlapping region of the physical cells is preserved
            LET keep == \A x \in 0..(e.w - 1), y \in 0..(e.h - 1) :
                           (x < s.fw /\ y < s.fh) => e.cells[y * e.w + x + 1] = s.front[y * s.fw + x + 1]
-               changed == e.w # s.pw \/ e.h # s.ph
+               \* a resize event is owed when the size differs from the one the application was last told, i.e. the size
+               \* of the cell buffer (two changes that cancel before the next draw leave nothing to report)
+               changed == e.w # cb.w \/ e.h # cb.h
            IN <<cb, [s EXCEPT !.pw = e.w, !.ph = e.h, !.front = e.cells, !.fw = e.w, !.fh = e.h, !.curknown = FALSE,
-                              !.pending = IF changed THEN <<e.w, e.h>> ELSE @],
+                              !.pending = IF changed THEN <<e.w, e.h>> ELSE <<>>],
                 (IF keep /\ e.pw = e.w /\ e.ph = e.h THEN {} ELSE {Dev("C18.setsize", "overlap_not_preserved", <<e.w, e.h>>)})>>
       [] e.ev = "Inject" -> <<cb, [s EXCEPT !.expect = @ \o e.expect], IF e.ok THEN {} ELSE {Dev("C18.inject", "reported_failure", e.what)}>>
       [] e.ev = "Drain" ->
